@@ -45,6 +45,8 @@ structure SyncReq where
   allowedVal : List Int
   /-- the remote asked to unlink afterwards: the answer may legitimately never come (or come after `unlinked`) -/
   voidable : Bool := false
+  /-- the request itself linked the remote (no link request before it) -/
+  implicit : Bool := false
   deriving Repr
 
 structure Pair where
@@ -215,7 +217,7 @@ def Mon.frame (m : Mon) (f : Frame) : Mon × Option String :=
           -- a remote that linked implicitly by this very sync: keys that changed after the request are the known
           -- loss (the live update was broadcast before the link existed)
           let changedSince (k : Nat) : Bool := ((alGet sq.allowed k).getD [none]).length > 1
-          if p.implicitT0 == some sq.t0 && bad.all changedSince then
+          if (sq.implicit || p.implicitT0 == some sq.t0) && bad.all changedSince then
             (m.setPair f.r f.lane p', some "map-update-lost-during-implicit-link-sync")
           else (m.setPair f.r f.lane p', some "map-snapshot-inconsistent")
       else (m.setPair f.r f.lane p', none)
@@ -347,7 +349,8 @@ def Mon.step (m : Mon) (line : String) (out : String) : Mon × Option String :=
         let r := r.toNat?.getD 0; let l := laneId lane; let p := m1.pair r l
         if l = 4 then m1.setPair r l { p with nfExpected := p.nfExpected + 1 }
         else
-          let sq : SyncReq := { t0 := m1.t, allowed := m1.curMap.map (fun e => (e.1, [some e.2])), allowedVal := [m1.curVal] }
+          let sq : SyncReq := { t0 := m1.t, allowed := m1.curMap.map (fun e => (e.1, [some e.2])), allowedVal := [m1.curVal],
+                                implicit := p.linkedAt.isNone }
           m1.setPair r l { p with linkedAt := some (p.linkedAt.getD m1.t), syncs := p.syncs ++ [sq],
                                   implicitT0 := if p.linkedAt.isNone then some m1.t else p.implicitT0 }
       | ["unlink", r, lane] =>
